@@ -15,10 +15,12 @@ from typing import Any
 from . import backends
 from .core import Ctx, InternalError, Part, main_wrapper, pmap
 from .explore import Chooser, explore
-from .linz import Scenario
+from .linz import Scenario, SqlScenario
 from .sharness import S
 
 PID = "C03"
+
+SQL_CONFIGS = ["rdb-procs", "cached-procs", "rdb-shared"]
 
 THREAD_CONFIGS = {
     "mem": ["optuna.storages._in_memory"],
@@ -86,6 +88,21 @@ def scenarios(tier: str) -> list[tuple]:
         if tier == "thorough" or not slow:
             for p in two + three:
                 out.append((cfg, p, b2))
+    # Part B: processes / threads at SQL-statement level on one SQLite file
+    for cfg in SQL_CONFIGS:
+        bound = 1 if tier == "quick" else 2
+        names = NAMES if (cfg == "rdb-procs" or tier == "thorough") else ["create_trial", "claim", "finish", "user_attr", "get_all_trials", "get_waiting"]
+        for i, a in enumerate(names):
+            for b in names[i:]:
+                if a == b and a in NO_SELF_PAIR:
+                    continue
+                if a.startswith("get_") and b.startswith("get_"):
+                    continue
+                out.append((cfg, ((a,), (b,)), bound))
+        if tier == "thorough":
+            for p in [(("create_trial", "user_attr"), ("create_trial", "finish")), (("create_waiting", "claim"), ("claim", "get_waiting")),
+                      (("claim",), ("claim",), ("claim",))]:
+                out.append((cfg, p, 1))
     return out
 
 
@@ -97,8 +114,16 @@ def scenario_task(task: tuple) -> dict:
     cfg, names, bound = task
     backends.setup_determinism()
     part = Part()
-    mods = [importlib.import_module(m) for m in THREAD_CONFIGS[cfg]]
-    sc = Scenario(cfg, "std", build_programs(names), mods)
+    if cfg in SQL_CONFIGS:
+        from . import thx as _thx
+
+        _thx.set_instrumented([])
+        sc = SqlScenario(cfg, "std", build_programs(names))
+        engine = "procx-sql"
+    else:
+        mods = [importlib.import_module(m) for m in THREAD_CONFIGS[cfg]]
+        sc = Scenario(cfg, "std", build_programs(names), mods)
+        engine = "thx"
     outcomes: set = set()
     first = {"done": False}
 
@@ -114,10 +139,10 @@ def scenario_task(task: tuple) -> dict:
         sig = (tuple(sorted((ti, k, r) for ti, k, _, _, r in ex["hist"])), ex["final"])
         new = sig not in outcomes
         outcomes.add(sig)
-        rep = {"engine": "thx", "config": cfg, "programs": names, "schedule": ch.choices,
+        rep = {"engine": engine, "config": cfg, "programs": names, "schedule": ch.choices,
                "history": ex["hist"], "final": ex["final"]}
         if ex["deadlock"]:
-            part.violation(f"thx|{cfg}|deadlock|{'+'.join('/'.join(p) for p in names)}", rep)
+            part.violation(f"{engine}|{cfg}|deadlock|{'+'.join('/'.join(p) for p in names)}", rep)
             return
         if ex["errors"]:
             raise InternalError(f"driver error {ex['errors']} in {cfg} {names}")
@@ -125,7 +150,7 @@ def scenario_task(task: tuple) -> dict:
             return
         ok, w = sc.linearizable(ex)
         if not ok:
-            key = f"thx|{cfg}|not-linearizable|{'+'.join('/'.join(p) for p in sorted(names))}"
+            key = f"{engine}|{cfg}|not-linearizable|{'+'.join('/'.join(p) for p in sorted(names))}"
             part.violation(key, rep)
 
     st = explore(sc.execute, bound, on_exec)
